@@ -179,6 +179,7 @@ fn replay(rec: &Value) -> i32 {
 fn libcall() {
     let budget_s: u64 = std::env::var("JL_CPU_BUDGET_S").ok().and_then(|s| s.parse().ok()).unwrap_or(10);
     observe::wd_start(None, budget_s * 1_000_000_000);
+    let shim = observe::shim();
     let stdin = std::io::stdin();
     for line in stdin.lock().lines() {
         let line = match line {
@@ -204,7 +205,15 @@ fn libcall() {
             (_, Err(e)) => json!({"parse_error": "data", "msg": e.to_string()}),
             (Ok(r), Ok(d)) => match {
                 observe::wd_arm(&r, &d);
-                let o = observe::call(&r, &d);
+                let o = match shim {
+                    Some(sh) => {
+                        let (o, n, names) = observe::call_armed(sh, &r, &d);
+                        let _ = std::io::stdout().flush();
+                        println!("@@SHIM {}", json!({"consulted": n, "names": names}));
+                        o
+                    }
+                    None => observe::call(&r, &d),
+                };
                 observe::wd_disarm();
                 o
             } {
